@@ -21,7 +21,7 @@ def get_default_metric_for_input_data(input_data: OneOf(Seq(Str, "list"), Seq(St
                                    "BetaCdr3Levenshtein" if ("CDR3B" in input_data) else "Levenshtein"), name="post[metric by columns present]")
 
 
-@contract("pyrepseq.distance.pcDelta", props=["C05", "C13"], scope="pcdelta_calls")
+@contract("pyrepseq.distance.pcDelta", props=["C05", "C13"], scope="pcdelta_calls", opaque_on_tables="array")
 def pcDelta(seqs: OneOf(Seq(Str, "list", min_len=2), TableT(["CDR3A", "CDR3B"], min_rows=2),
                         TupleT(Seq(Str, "list", min_len=2), Seq(Str, "list", min_len=2))),
             seqs2: OneOf(NoneType, Seq(Str, "list", min_len=1)),
